@@ -205,7 +205,8 @@ def _extract_class(c: ast.ClassDef, nx: Norm, modname: str) -> dict:
             name = st.target.id
             if is_cv:
                 cls["classvars"][name] = {"ann": ann, "value": nx(st.value), "line": st.lineno,
-                                         "src": ast.unparse(st.value) if st.value is not None else None}
+                                         "src": ast.unparse(st.value) if st.value is not None else None,
+                                         "ann_src": ast.unparse(st.annotation)}
                 cls["classvar_order"].append(name)
                 continue
             cls["fields"].append(_extract_field(st, nx, ann))
